@@ -13,6 +13,27 @@ pub fn gen_plan(prop: &str, seed: u64) -> Plan {
 }
 
 pub fn run_plan(plan: &Plan, keep: bool) -> RunOutput {
+    let mut out = run_inner(plan, keep);
+    // the histories of these engines are well-formed programs: under the C04 check a panic in
+    // one of them is a C04 violation as well
+    if plan.knobs.stop_on == "C04" && plan.engine != "limits" {
+        if let Some(msg) = out.panics.first().cloned() {
+            let at = out.events as usize;
+            out.violations.push(crate::trace::Violation { property: "C04", rule: "panic", at, detail: format!("{} engine: unexpected panic: {}", plan.engine, msg) });
+        }
+    }
+    // C07's one-assignment clause over programs whose expert node writes a variable from its
+    // observability callback (a callback made inside stabilise): observers must still show the
+    // assignment current when stabilise was called
+    if plan.knobs.stop_on == "C07" && plan.engine == "expert" && out.faults.get("expert_write_from_observability_callback").copied().unwrap_or(0) > 0 {
+        if let Some(v) = out.violations.iter().find(|v| v.rule == "wrong-value").cloned() {
+            out.violations.push(crate::trace::Violation { property: "C07", rule: "observers-not-one-assignment", at: v.at, detail: format!("expert engine, after a write made by an observability callback inside stabilise: {}", v.detail) });
+        }
+    }
+    out
+}
+
+fn run_inner(plan: &Plan, keep: bool) -> RunOutput {
     match plan.engine.as_str() {
         "expert" => run_with(plan, keep, crate::expert::run_on_this_thread),
         "map" => run_with(plan, keep, crate::mapeng::run_on_this_thread),
